@@ -285,6 +285,12 @@ func (ex *Exec) evalIdent(st *State, id *ast.Ident, sc *SpecCtx) *Val {
 		v.Fn = &FnVal{Obj: o}
 		return v
 	case *types.TypeName:
+		if sc != nil {
+			// a type name in value position: usually a local variable the clause refers to
+			// no longer exists (or is declared later) and the name now resolves to a type
+			ex.specErr("name %q does not denote a variable here (it resolves to a type)", id.Name)
+			return ex.freshVal(nil, "undef")
+		}
 		return &Val{T: o.Type(), Sh: nil}
 	case *types.Builtin:
 		return &Val{T: o.Type()}
